@@ -195,7 +195,7 @@ theorem ac_step (hL : InvLock s) (h : InvSer c s) (htr : Trans c s t s') :
   -- not the owner before and after: nothing relevant changes
   case idleW hpc _ | idleR hpc _ | wInit hpc | wAcqFirst hpc _ _ | wAcqAgain hpc _ _ | wTestOk hpc _ _ | wTestFail hpc _
       | wNewEv hpc | wAppend _ hpc _ | wRelB hpc | wWait _ hpc _ _ | eTestWSome hpc _ | eTestWNone hpc _ | ePop _ _ hpc _
-      | eSet _ hpc _ | eRel hpc | rdAcq hpc _ | rdPick hpc | rdAdd hpc | rdRel hpc | rdRet hpc | rdBody hpc | xAcq hpc _
+      | eSet _ hpc _ | eRel hpc | rdAcq hpc _ | rdPick hpc _ | rdPickId _ _ hpc _ _ | rdPickMiss hpc | rdFail hpc | rdAdd hpc | rdRel hpc | rdRet hpc | rdBody hpc | xAcq hpc _
       | xRemove hpc | xPrune hpc | xRel hpc =>
     rw [curCommitter_setLoc_ne]
     · exact h0
@@ -256,7 +256,7 @@ theorem vlen_step (hL : InvLock s) (h : InvSer c s) (htr : Trans c s t s') :
   cases htr <;> simp only [setLoc_versions, setLoc_committed]
   case idleW hpc _ | idleR hpc _ | wInit hpc | wAcqFirst hpc _ _ | wAcqAgain hpc _ _ | wTestOk hpc _ _ | wTestFail hpc _
       | wNewEv hpc | wAppend _ hpc _ | wRelB hpc | wWait _ hpc _ _ | eTestWSome hpc _ | eTestWNone hpc _ | ePop _ _ hpc _
-      | eSet _ hpc _ | eRel hpc | rdAcq hpc _ | rdPick hpc | rdAdd hpc | rdRel hpc | rdRet hpc | rdBody hpc | xAcq hpc _
+      | eSet _ hpc _ | eRel hpc | rdAcq hpc _ | rdPick hpc _ | rdPickId _ _ hpc _ _ | rdPickMiss hpc | rdFail hpc | rdAdd hpc | rdRel hpc | rdRet hpc | rdBody hpc | xAcq hpc _
       | xRemove hpc | xPrune hpc | xRel hpc =>
     rw [nAppended_setLoc_ne]
     · exact h0
@@ -349,6 +349,24 @@ theorem lastV_step (hL : InvLock s) (h : InvSer c s) (htr : Trans c s t s') :
       exact absurd (Option.some.inj this).symm hu
   all_goals (intro u; pres_ser s hL h t u (h.lastV u))
 
+/-- a thread at a reader program point that holds the lock excludes a commit in progress -/
+theorem nAppended_zero_of_reader_lock (hL : InvLock s) {u : Tid} (hl : s.lock = some u) (hr : readerPc (s.loc u).pc = true) :
+    nAppended s = 0 := by
+  unfold nAppended
+  rcases hw : s.writeTxn with _ | v
+  · rfl
+  · simp only
+    by_cases hv : appendedPc (s.loc v).pc = true
+    · exfalso
+      have h1 : holdsLock (s.loc v).pc = true := by
+        revert hv; cases (s.loc v).pc <;> simp
+      have := (hL.lock v).mp h1
+      rw [hl] at this
+      have hvu : u = v := Option.some.inj this
+      rw [← hvu] at hv
+      revert hv hr; cases (s.loc u).pc <;> simp
+    · simp [hv]
+
 theorem mem_take_succ {α} {l : List α} {x : α} {k : Nat} (h : x ∈ l.take k) : x ∈ l.take (k + 1) := by
   rw [List.take_add_one]
   exact List.mem_append_left _ h
@@ -358,29 +376,29 @@ theorem rver_step (hL : InvLock s) (h : InvSer c s) (htr : Trans c s t s') :
     ∀ u, readerHasPc (s'.loc u).pc = true → (s'.loc u).rver ∈ s'.versions.take (s'.committed.length + 1) := by
   have hlen := h.vlen
   cases htr
-  case rdPick hpc =>
+  case rdPick hpc _ =>
     intro u
     by_cases hu : u = t
     · subst hu
       intro _
       have hl := (hL.lock u).mp (by simp [hpc])
-      have hn : nAppended s = 0 := by
-        unfold nAppended
-        rcases hw : s.writeTxn with _ | v
-        · rfl
-        · simp only
-          by_cases hv : appendedPc (s.loc v).pc = true
-          · exfalso
-            have h1 : holdsLock (s.loc v).pc = true := by
-              revert hv; cases (s.loc v).pc <;> simp
-            have := (hL.lock v).mp h1
-            rw [hl] at this
-            have hvu : u = v := Option.some.inj this
-            rw [← hvu, hpc] at hv; cases hv
-          · simp [hv]
+      have hn := nAppended_zero_of_reader_lock hL hl (by simp [hpc])
       simp only [setLoc_loc, if_true, setLoc_versions, setLoc_committed]
       rw [take_all_of_idle h hn]
       exact lastVersion_mem h
+    · intro hp
+      simp only [setLoc_loc, if_neg hu] at hp ⊢
+      exact h.rver u hp
+  case rdPickId k v hpc _ hf =>
+    intro u
+    by_cases hu : u = t
+    · subst hu
+      intro _
+      have hl := (hL.lock u).mp (by simp [hpc])
+      have hn := nAppended_zero_of_reader_lock hL hl (by simp [hpc])
+      simp only [setLoc_loc, if_true, setLoc_versions, setLoc_committed]
+      rw [take_all_of_idle h hn]
+      exact List.mem_of_find?_eq_some hf
     · intro hp
       simp only [setLoc_loc, if_neg hu] at hp ⊢
       exact h.rver u hp
